@@ -3,6 +3,7 @@ import math
 
 from contracts._rt import forall, exists, implies
 from contracts.arrays import axis_of, on_lattice
+from soundevent.audio.io import load_audio
 
 
 def time_axis(arr):
@@ -68,3 +69,69 @@ class ComputeSpectrogram:
         return (st > 0 and sf_ > 0
                 and forall(len(t), lambda i: on_lattice(t[i], t0, st, i))
                 and forall(len(f), lambda k: on_lattice(f[k], 0.0, sf_, k)))
+
+
+# ---- load_audio against the soundfile contract ------------------------------------------------------------------------
+def frames_in_file(path):
+    """number of frames of the audio file (soundfile: SoundFile.frames)"""
+    import soundfile as sf
+    with sf.SoundFile(path) as fp:
+        return fp.frames
+
+
+def samplerate_of_file(path):
+    import soundfile as sf
+    with sf.SoundFile(path) as fp:
+        return fp.samplerate
+
+
+def frames_from(path, position, count):
+    """the file's frames position .. position + count (all the remaining ones when count is negative), as rows x channels,
+    zero-filled past the end of the file -- written out with plain slicing, independent of seek/read"""
+    import numpy as np
+    import soundfile as sf
+    whole, _ = sf.read(path, always_2d=True)
+    rest = whole[position:]
+    if count < 0:
+        return rest
+    out = np.zeros((count, whole.shape[1]), dtype=whole.dtype)
+    out[: min(count, len(rest))] = rest[:count]
+    return out
+
+
+def same_frames(a, b):
+    import numpy as np
+    return a.shape == b.shape and bool(np.array_equal(a, b))
+
+
+class LoadAudio:
+    target = "soundevent.audio.io:load_audio"
+    types = {"path": "Opq:AudioPath", "offset": "int", "samples": "Optional[int]"}
+
+    def requires(offset, samples):
+        return offset >= 0 and (samples is None or samples >= 0)
+
+    def build_inputs(inputs):
+        """replay: the solver's file is opaque, so a real WAV is synthesised -- non-zero frames, SHORTER than the requested offset
+        (the region where seeking has to be clamped); if the counterexample needs another file length the replay reports
+        `no failing input found`, never a failure of its own making"""
+        import os
+        import tempfile
+        import numpy as np
+        import soundfile as sf
+        offset = int(inputs["offset"])
+        frames = min(max(1, offset - 1) if offset >= 2 else 4, 20000)
+        import atexit
+        import shutil
+        tmpdir = tempfile.mkdtemp(prefix="verif_c15_replay_")
+        atexit.register(shutil.rmtree, tmpdir, True)
+        path = os.path.join(tmpdir, "a.wav")
+        sf.write(path, ((np.arange(frames) % 7 + 1) / 10.0).astype("float32"), 8000, subtype="FLOAT")
+        samples = inputs["samples"]
+        return dict(path=path, offset=offset, samples=None if samples is None else min(int(samples), 50000))
+
+    def ensures(path, offset, samples, result):
+        # reads from the requested offset, or from the end of the file when the offset lies beyond it (nothing but zero fill then)
+        start = min(offset, frames_in_file(path))
+        count = -1 if samples is None else samples
+        return same_frames(result[0], frames_from(path, start, count)) and result[1] == samplerate_of_file(path)
